@@ -39,6 +39,30 @@ def main():
         d = json.load(open(m))
         out.append('| %s | %s | %s | %s | %s |' % (d['id'], d['property'], d['breaks'], d['needs_to_manifest'], d['result']))
     s = block(s, 'SEEDS', '\n'.join(out))
+    # per property as built
+    claims = json.load(open(os.path.join(V, 'tools', 'manifest_claims.json')))
+    props = [json.loads(l) for l in open(os.path.join(V, 'properties.jsonl'))]
+    out = []
+    for pr in props:
+        pid = pr['id']
+        pv = os.path.join(V, 'coq', 'Properties', pid + '.v')
+        th = re.findall(r'^\s*(?:Theorem|Corollary|Example)\s+(\w+)', status.strip_comments(open(pv).read()), re.M) \
+            if os.path.exists(pv) else []
+        out.append('**%s - %s.**' % (pid, pr['title']))
+        if pid in claims:
+            out.append('*Claimed.* ' + claims[pid]['text'])
+            out.append('')
+            out.append('*Trusted / limits.* ' + claims[pid]['note'])
+        else:
+            out.append('*Not claimed in MANIFEST.json* (see `not_applicable` there for the reason).')
+        out.append('')
+        out.append('*Theorems in `Properties/%s.v`* (each `Closed under the global context`): %s.' % (
+            pid, ', '.join('`%s`' % t for t in th) or '-'))
+        op = [f['id'] for f in fs if f['property'] == pid and f['status'] == 'open']
+        fx = [f['id'] for f in fs if f['property'] == pid and f['status'] == 'fixed']
+        out.append('*Findings.* open: %s; repaired: %s.' % (', '.join(op) or 'none', ', '.join(fx) or 'none'))
+        out.append('')
+    s = block(s, 'ASBUILT', '\n'.join(out))
     open(p, 'w').write(s)
 
 
